@@ -9,10 +9,14 @@ declare -A CHECKS=(
  [c11a]="C11" [c11b]="C11" [c11c]="C11"
  [c12a]="C12" [c12b]="C12" [c13a]="C13 C12" [c14a]="C14" [c15a]="C15" [c15b]="C15"
  [c19a-m1]="C19" [c19a-m2]="C15 C19" [c19a-m3]="C19"
+ [c01d]="C01" [c01e]="C01" [c11d]="C11" [c11e-m1]="C11" [c11e-m2]="C11 C13" [c11e-m3]="C11"
+ [c12c]="C12" [c12d]="C12" [c13b-m1]="C12 C13" [c13b]="C13" [c13c]="C13" [c14b]="C14" [c14c-m1]="C14" [c14c-m2]="C11 C14" [c14c-m3]="C11 C14"
+ [c15c]="C15" [c15d-m1]="C15" [c15d-m2]="C19 C15" [c15d-m3]="C15" [c19b]="C19" [c19c]="C19" [c05b]="C05" [c04c]="C04"
 )
 for d in seeded/*/; do
   id=$(basename $d); grp=${id%-m*}
   checks=${CHECKS[$id]:-${CHECKS[$grp]}}
   [ -z "$checks" ] && { echo "no checks for $id"; continue; }
+  if grep -q '"status": "obsolete"' $d/meta.json; then echo "$id obsolete, skipped"; continue; fi
   python3 tools/run_seeded.py $id $checks
 done
